@@ -39,8 +39,8 @@ func writeEvidenceFailure(prop, tier string, seed int64, why string, d time.Dura
 		"assumptions": []string{},
 	}
 	b, _ := json.MarshalIndent(ev, "", " ")
-	os.MkdirAll(filepath.Join(verifDir, "evidence"), 0o755)
-	os.WriteFile(filepath.Join(verifDir, "evidence", prop+".json"), b, 0o644)
+	os.MkdirAll(evidenceDir(), 0o755)
+	os.WriteFile(filepath.Join(evidenceDir(), prop+".json"), b, 0o644)
 }
 
 func sortedSet(m map[string]bool) []string {
@@ -235,8 +235,8 @@ func finishCheck(prop, tier string, seed int64, spec PropSpec, results []jobResu
 					crossBy[sv[0]]++
 				default:
 					problems = append(problems, fmt.Sprintf("job %s: cross-solver disagreement on an assertion query of %s: z3 4.8.12 %s, %s %s", jr.Job.Name, q.Label, q.Result, sv[0], got))
-					os.MkdirAll(filepath.Join(verifDir, "evidence", "queries"), 0o755)
-					os.WriteFile(filepath.Join(verifDir, "evidence", "queries", fmt.Sprintf("%s-disagree-%d.smt2", prop, crossN)), []byte(q.Script), 0o644)
+					os.MkdirAll(filepath.Join(evidenceDir(), "queries"), 0o755)
+					os.WriteFile(filepath.Join(evidenceDir(), "queries", fmt.Sprintf("%s-disagree-%d.smt2", prop, crossN)), []byte(q.Script), 0o644)
 				}
 			}
 		}
@@ -309,8 +309,8 @@ func finishCheck(prop, tier string, seed int64, spec PropSpec, results []jobResu
 		"property_id": prop, "tier": tier, "seed": seed, "level": "model_checking", "wall_s": time.Since(t0).Seconds(),
 		"violations": nViol, "coverage": cov, "assumptions": spec.Assumptions,
 	}
-	os.MkdirAll(filepath.Join(verifDir, "evidence"), 0o755)
-	writeJSON(filepath.Join(verifDir, "evidence", prop+".json"), ev)
+	os.MkdirAll(evidenceDir(), 0o755)
+	writeJSON(filepath.Join(evidenceDir(), prop+".json"), ev)
 	if exit == 0 {
 		fmt.Printf("OK property=%s tier=%s paths=%d queries=%d wall=%.1fs\n", prop, tier, totalPaths, totalQ, time.Since(t0).Seconds())
 	}
